@@ -398,8 +398,8 @@ def run(tier, seed, replay):
             chk.cov["evaluations"] += len(nt_inputs) - 1
             bad = [unhex(h) for h in o["bad"].split(",") if h]
             if bad or int(o["n_ok"]) + int(o["n_err"]) != len(nt_inputs):
-                chk.violation("newtype-delegation", {"newtype": nt[1], "inputs": bad[:10]},
-                              "`%s` does not parse like its field type on %r" % (nt[1], bad[:5]))
+                chk.violation("newtype-not-delegating", {"newtype": (nt[6] if len(nt) > 6 else "") + "#[derive(FromStr)] " + nt[1], "inputs": bad[:10]},
+                              "`%s` does not parse like its field type `%s` (through `impl FromStr`) on %r" % (nt[1], nt[3], bad[:5]))
             # token-level tie
             if "items" not in resp or t == "None":
                 chk.violation("tie-model-newtype", {"newtype": nt[1], "response": resp, "model": t}, "expander/model reject newtype %s" % nt[1])
